@@ -132,6 +132,7 @@ class FontInfo:
         self.gpos_kern = "kern" in self.feats["GPOS"]
         self.nlookups = {tag: lookup_count(font, tag) for tag in ("GSUB", "GPOS")}
         self.pair2 = pair_class_counts(font)
+        self.pair2_shadow = pairpos2_shadowing(font)
         names = font["name"].names if "name" in font else []
         self.rich_names = any(n.nameID > 6 or n.langID not in (0x409, 0) or not n.isUnicode() for n in names)
         known = set()
@@ -408,6 +409,51 @@ def feature_dict(info, kw):
     return feats
 
 
+def selected_records(font, tag, mode):
+    """(script record present, langsys record present) for the OpenType script / language
+    system a shaping mode selects in table `tag` ('latn' for Latn, 'DFLT' for Zyyy)."""
+    if tag not in font or not font[tag].table.ScriptList:
+        return None
+    script, lang = mode
+    want = "latn" if script == "Latn" else "DFLT"
+    for sr in font[tag].table.ScriptList.ScriptRecord:
+        if sr.ScriptTag == want:
+            if lang is None:
+                return (True, sr.Script.DefaultLangSys is not None)
+            ltag = {"tr": "TRK "}[lang]
+            return (True, any(l.LangSysTag == ltag for l in sr.Script.LangSysRecord))
+    return (False, False)
+
+
+def pairpos2_shadowing(font):
+    """number of PairPos format 2 subtables that are followed by another subtable in their
+    lookup (first glyphs they cover never reach the later subtables)."""
+    n = 0
+    if "GPOS" in font and font["GPOS"].table.LookupList:
+        for lk in font["GPOS"].table.LookupList.Lookup:
+            sts = [st.ExtSubTable if hasattr(st, "ExtSubTable") else st for st in lk.SubTable]
+            for i, st in enumerate(sts[:-1]):
+                if type(st).__name__ == "PairPos" and st.Format == 2:
+                    n += 1
+    return n
+
+
+def classify_shape_diff(info, sub, mode, what):
+    """Narrow class of a shaping difference from the shape of original and result: a script /
+    language-system record the original selects is gone from the subset (the shaper falls back
+    to DFLT / the default language system), or a shadowing class-pair subtable was removed."""
+    for tag in (("GSUB",) if what == "glyphs" else ("GPOS",)):
+        a, b = selected_records(info.font, tag, mode), selected_records(sub, tag, mode)
+        if a and b:
+            if a[0] and not b[0]:
+                return ":%s-script-record-dropped" % tag
+            if a[1] and not b[1]:
+                return ":%s-langsys-record-dropped" % tag
+    if what == "positions" and info.pair2_shadow and len(pair_class_counts(sub)) < len(info.pair2):
+        return ":shadowing-class-pair-subtable-dropped"
+    return ""
+
+
 class Result:
     pass
 
@@ -589,7 +635,8 @@ def check_case(info, kind, req, optname, kw, rec, text_alpha, maxlen):
         kw2["layout_closure"] = True
         r2 = run_subset(info, kind, req, kw2)
         rec.evals(1)
-        if set(r2.new_order) != set(r.new_order):
+        same_rules = r2.new_order == r.new_order and TTFont(io.BytesIO(r2.data)).reader["GSUB"] == sub.reader["GSUB"]
+        if not same_rules:
             compare_gsub = False
             rec.witness("no-layout-closure: closure would have added glyphs")
             feats = dict(feats)
@@ -598,6 +645,8 @@ def check_case(info, kind, req, optname, kw, rec, text_alpha, maxlen):
                     feats[t] = False
             fkey = tuple(sorted(feats.items()))
             extra = set(r.new_order) - set(r2.new_order)
+            if len(r2.new_order) > len(r.new_order):
+                rec.witness("no-layout-closure: fewer glyphs than with closure")
             if extra:
                 rec.violation("no-layout-closure:retains-more" + tag, "%s: without closure the subset has glyphs %s that the closure run lacks" % (where, sorted(extra)[:5]))
     compare_pos = "GPOS" not in drop or "GPOS" not in info.tables
@@ -627,10 +676,10 @@ def check_case(info, kind, req, optname, kw, rec, text_alpha, maxlen):
                     continue
                 bn = [(new_order[g] if g < n else "gid%d" % g, cl, xa, ya, xo, yo) for g, cl, xa, ya, xo, yo in b]
                 if [x[:2] for x in a] != [x[:2] for x in bn]:
-                    rec.violation("shape:glyphs" + tag, "%s: text %r (location %s, script/lang %s): original %s, subset %s" % (where, text, info.locs[li], mode, [x[0] for x in a], [x[0] for x in bn]))
+                    rec.violation("shape:glyphs" + classify_shape_diff(info, sub, mode, "glyphs") + tag, "%s: text %r (location %s, script/lang %s): original %s, subset %s" % (where, text, info.locs[li], mode, [x[0] for x in a], [x[0] for x in bn]))
                     continue
                 if compare_pos and a != bn:
-                    rec.violation("shape:positions" + tag, "%s: text %r (location %s, script/lang %s): original %s, subset %s" % (where, text, info.locs[li], mode, a, bn))
+                    rec.violation("shape:positions" + classify_shape_diff(info, sub, mode, "positions") + tag, "%s: text %r (location %s, script/lang %s): original %s, subset %s" % (where, text, info.locs[li], mode, a, bn))
                 if not mark_seen and any((x[4] or x[5]) and info.gdef_classes.get(x[0]) == 3 for x in a):
                     mark_seen = True
     rec.count("texts shaped and compared", ntexts)
@@ -658,7 +707,8 @@ def check_case(info, kind, req, optname, kw, rec, text_alpha, maxlen):
             ob, advb = hb2.outline(gid), hb2.h_advance(gid)
             if retain and nm not in required and not ob and advb == 0 and (oa or adva):
                 continue  # emptied in place
-            if nm == info.notdef and gid == 0 and notdef_glyph and not notdef_outline and nm not in requested_glyphs:
+            if nm == info.notdef and gid == 0 and notdef_glyph and not notdef_outline:
+                # "--no-notdef-outline: when including a '.notdef' glyph, remove its outline" (also when requested)
                 if ob:
                     rec.violation("notdef:outline-kept" + tag, "%s: .notdef still has an outline (location #%d)" % (where, li))
                 oa = ob
@@ -815,7 +865,7 @@ def option_checks(info, r, sub, sub_order, new_order, okw, where, tag, rec, hb2,
             rec.violation("name:referenced-record-dropped" + tag, "%s: name IDs %s are referenced from fvar/STAT but were pruned" % (where, lost))
         ids_opt = okw.get("name_IDs", [0, 1, 2, 3, 4, 5, 6])
         if "*" not in ids_opt and not okw.get("obfuscate_names"):
-            extra = sorted(i for i in have if i < 256 and i not in ids_opt)
+            extra = sorted(i for i in have if i < 256 and i not in ids_opt and i not in need)
             if extra:
                 rec.violation("option:name-IDs:record-kept" + tag, "%s: name IDs %s survive --name-IDs=%s" % (where, extra, ids_opt))
         elif "*" in ids_opt and "name" in orig:
